@@ -13,6 +13,7 @@ from .. import spec as sp
 from ..taps import TAP, VirtualClock
 
 ID = 'C14'
+ANCHOR_FILES = ['solver/lp_solver.py', 'solver/model.py', 'solver/solver.py']
 LEVEL = 'fault_enumeration'
 EVAL_COUNTER = 'schedules_executed'
 RULE = ('for each (instance, criteria sequence) a clean traced run gives K, the number of underlying solves (per-rank solves of '
